@@ -112,10 +112,13 @@ def tfDeleteCursorToEndOfLine : List String := [
 /-- state writes, receiver calls, returns and loops of TextField.Draw (vxfw/textfield/textfield.go), in source order -/
 def tfDraw : List String := [
   "return vxfw.Surface{}, nil",
-  "for _, char := range chars {",
+  "for len(rest) > 0 {",
+  "cluster, rest, _, state = uniseg.FirstGraphemeClusterInString(rest, state)",
+  "for _, char := range ctx.Characters(cluster) {",
   "cell := vaxis.Cell{ Character: char, Style: tf.Style, }",
   "s.WriteCell(col, 0, cell)",
   "col += uint16(char.Width)",
+  "}",
   "i += 1",
   "if i == tf.cursor {",
   "s.Cursor.Col = col",
